@@ -195,6 +195,33 @@ fn add_relations(t: &mut Tape<'_>, c: &mut CmdSpec, exp: Option<&ExpLevel>) {
             c.args[i].required = true;
         }
     }
+    // an override relation between an argument given on the command line and one that is only set through its
+    // environment variable: no occurrence overrides anything (the other one never occurs), so the two are simply both
+    // explicit, which the library reports as the conflict that `overrides_with` implies
+    let on_line = |a: &ArgSpec| exp.map(|e| e.args.contains_key(&a.id)).unwrap_or(false);
+    let env_only: Vec<String> = c.args.iter().filter(|a| !on_line(a) && matches!(&a.env, Some((_, Some(_))))).map(|a| a.id.clone()).collect();
+    let line: Vec<usize> = (0..n).filter(|i| on_line(&c.args[*i])).collect();
+    if !env_only.is_empty() && !line.is_empty() && t.chance(1, 6) {
+        let x = *t.pick(&line);
+        let y = t.pick(&env_only).clone();
+        if t.bool() {
+            c.args[x].overrides_with.push(y);
+        } else if let Some(j) = c.args.iter().position(|a| a.id == y) {
+            let xid = c.args[x].id.clone();
+            c.args[j].overrides_with.push(xid);
+        }
+    }
+}
+
+/// Is there an override relation between an argument that comes from the command line and one that comes from its
+/// environment variable (see `add_relations`)?
+fn override_across_origins(level: &CmdSpec, origins: &BTreeMap<String, Origin>) -> bool {
+    let is = |id: &String, line: bool| match origins.get(id) {
+        Some(Origin::CommandLine) => line,
+        Some(Origin::Env(_)) | Some(Origin::EnvInvalid) => !line,
+        _ => false,
+    };
+    level.args.iter().any(|a| a.overrides_with.iter().any(|b| (is(&a.id, true) && is(b, false)) || (is(&a.id, false) && is(b, true))))
 }
 
 impl Property for Sources {
@@ -207,7 +234,9 @@ impl Property for Sources {
          Equals, Some / None), default_missing_value, env (unset, valid, empty, delimiter-containing, outside the parser's language; \
          also on SetTrue/SetFalse flags), ranged-integer parsers on some options, the implicit defaults of flag actions, plus conflicts / \
          requires / required placed so that the explicit arguments satisfy them literally while arguments present by default would \
-         violate them if defaults counted, and arg_required_else_help on some roots x intended invocations spelled freely; 1 in 8 cases use ignore_errors(true) with an unknown flag appended (the error-recovery path must resolve env and defaults the same way). Oracle: for \
+         violate them if defaults counted, overrides_with between an argument on the command line and one set only through its \
+         environment variable (outcome: the implied ArgumentConflict, or precedence intact; never a replaced command-line value), \
+         and arg_required_else_help on some roots x intended invocations spelled freely; 1 in 8 cases use ignore_errors(true) with an unknown flag appended (the error-recovery path must resolve env and defaults the same way). Oracle: for \
          every argument of every level exactly one origin in the order command line > environment > conditional default (first \
          matching, None = no default at all) > plain default > implicit flag default > absent; value_source names it and the raw values \
          are that origin's (split at the delimiter); default_missing only for an occurrence without raw token (model of C02); an \
@@ -316,6 +345,13 @@ impl Property for Sources {
                 }
                 if expect_help && e.kind() == ErrorKind::DisplayHelpOnMissingArgumentOrSubcommand {
                     ctx.label("arg_required_else_help-fired");
+                    ctx.nontrivial();
+                    return Verdict::Pass;
+                }
+                if e.kind() == ErrorKind::ArgumentConflict && levels.iter().any(|(lv, m)| override_across_origins(lv, m)) {
+                    // both explicit, neither occurrence-overridden: the implied conflict. What must never happen is an
+                    // accepted line on which the command-line value was replaced (checked on the Ok path).
+                    ctx.label("override-between-command-line-and-env:conflict");
                     ctx.nontrivial();
                     return Verdict::Pass;
                 }
